@@ -487,12 +487,12 @@ pub mod handlers {
 //@ ensures[C02,NEEDS-WITNESS] r.is_ok() && request.ack_ids@.len() > 0 ==> exists|ids: Seq<AckId>| #[trigger] acked(*subscription, ids) && ids.len() == request.ack_ids@.len() && forall|i: int| #![trigger ids[i]] 0 <= i < ids.len() ==> ids[i].v() == parsed::<u64>(request.ack_ids@[i]@).unwrap()
 //@ # C05: ... and one modification per (ack id, seconds) pair, in order, each as the per-pair rule says
 //@ ensures[C05] r.is_ok() && request.modify_deadline_ack_ids@.len() > 0 ==> exists|mods: Seq<DeadlineModification>, now: int| #![trigger modified(*subscription, mods), stream_mods_ok(now, request.modify_deadline_ack_ids@, request.modify_deadline_seconds@, mods)] modified(*subscription, mods) && stream_mods_ok(now, request.modify_deadline_ack_ids@, request.modify_deadline_seconds@, mods)
-//@ closure 1 ret a: Result<AckId, Status>
-//@ closure 1 ensures (match a { Ok(x) => parsed::<u64>($1@).is_some() && x.v() == parsed::<u64>($1@).unwrap(), Err(e) => parsed::<u64>($1@).is_none() && e.code == Code::InvalidArgument })
-//@ closure 2 ret st: Status
-//@ closure 2 ensures st.code == Code::FailedPrecondition
-//@ closure 3 ret st: Status
-//@ closure 3 ensures st.code == Code::FailedPrecondition
+//@ closure /parser::parse_ack_id/ ret a: Result<AckId, Status>
+//@ closure /parser::parse_ack_id/ ensures (match a { Ok(x) => parsed::<u64>($1@).is_some() && x.v() == parsed::<u64>($1@).unwrap(), Err(e) => parsed::<u64>($1@).is_none() && e.code == Code::InvalidArgument })
+//@ closure /AcknowledgeMessagesError::Closed/ ret st: Status
+//@ closure /AcknowledgeMessagesError::Closed/ ensures st.code == Code::FailedPrecondition
+//@ closure /ModifyDeadlineError::Closed/ ret st: Status
+//@ closure /ModifyDeadlineError::Closed/ ensures st.code == Code::FailedPrecondition
 //@ proof-after /\.collect::<Result<Vec<_>, Status>>\(\)\?;/ { assert forall|i: int| 0 <= i < request.ack_ids@.len() implies parsed::<u64>((#[trigger] request.ack_ids@[i])@).is_some() by { let x = ack_ids@[i]; } }
 //@end
 //@fn src/api/subscriber.rs conflict tags=C17
@@ -513,10 +513,10 @@ pub mod handlers {
 //@ # (stated with the ids in request order - more than C02 needs: NEEDS-WITNESS)
 //@ ensures[C02,NEEDS-WITNESS] r.is_ok() && request.m.ack_ids@.len() > 0 ==> exists|s: Arc<Subscription>, ids: Seq<AckId>| #[trigger] acked(*s, ids) && lookup(*self.subscription_manager, parsed_name(request.m.subscription@).unwrap()) == Ok::<Arc<Subscription>, GetSubscriptionError>(s) && ids.len() == request.m.ack_ids@.len() && forall|i: int| #![trigger ids[i]] 0 <= i < ids.len() ==> ids[i].v() == parsed::<u64>(request.m.ack_ids@[i]@).unwrap()
 //@ proof-after /\.collect::<Result<Vec<_>, Status>>\(\)\?;/ { assert forall|i: int| 0 <= i < request.ack_ids@.len() implies parsed::<u64>((#[trigger] request.ack_ids@[i])@).is_some() by { let x = ack_ids@[i]; } }
-//@ closure 1 ret a: Result<AckId, Status>
-//@ closure 1 ensures (match a { Ok(x) => parsed::<u64>($1@).is_some() && x.v() == parsed::<u64>($1@).unwrap(), Err(e) => parsed::<u64>($1@).is_none() && e.code == Code::InvalidArgument })
-//@ closure 2 ret st: Status
-//@ closure 2 ensures st.code == Code::Internal
+//@ closure /parser::parse_ack_id/ ret a: Result<AckId, Status>
+//@ closure /parser::parse_ack_id/ ensures (match a { Ok(x) => parsed::<u64>($1@).is_some() && x.v() == parsed::<u64>($1@).unwrap(), Err(e) => parsed::<u64>($1@).is_none() && e.code == Code::InvalidArgument })
+//@ closure /AcknowledgeMessagesError::Closed/ ret st: Status
+//@ closure /AcknowledgeMessagesError::Closed/ ensures st.code == Code::Internal
 //@end
 
 //@fn src/api/subscriber.rs SubscriberService::modify_ack_deadline tags=C05
@@ -529,10 +529,10 @@ pub mod handlers {
 //@ ensures[C10] r.is_ok() ==> parsed_name(request.m.subscription@).is_some() && lookup(*self.subscription_manager, parsed_name(request.m.subscription@).unwrap()).is_ok()
 //@ ensures[C05] r.is_ok() && request.m.ack_ids@.len() > 0 ==> exists|s: Arc<Subscription>, mods: Seq<DeadlineModification>, now: int| #![trigger modified(*s, mods), mods_ok(now, request.m.ack_ids@, request.m.ack_deadline_seconds, mods)] modified(*s, mods) && lookup(*self.subscription_manager, parsed_name(request.m.subscription@).unwrap()) == Ok::<Arc<Subscription>, GetSubscriptionError>(s) && mods_ok(now, request.m.ack_ids@, request.m.ack_deadline_seconds, mods)
 //@ proof-after /^\s*\)\?;\s*$/ { assert forall|i: int| 0 <= i < request.ack_ids@.len() implies parsed::<u64>((#[trigger] request.ack_ids@[i])@).is_some() by { let x = deadline_modifications@[i]; } if request.ack_ids@.len() > 0 { let x = deadline_modifications@[0]; } assert(modack_ok(request.ack_ids@, request.ack_deadline_seconds)); assert(mods_ok(now.v(), request.ack_ids@, request.ack_deadline_seconds, deadline_modifications@)); }
-//@ closure 1 ret sec: i32
-//@ closure 1 ensures sec == request.ack_deadline_seconds
-//@ closure 2 ret st: Status
-//@ closure 2 ensures st.code == Code::Internal
+//@ closure /request\.ack_deadline_seconds/ ret sec: i32
+//@ closure /request\.ack_deadline_seconds/ ensures sec == request.ack_deadline_seconds
+//@ closure /ModifyDeadlineError::Closed/ ret st: Status
+//@ closure /ModifyDeadlineError::Closed/ ensures st.code == Code::Internal
 //@end
     }
 }
